@@ -3,6 +3,7 @@ package main
 // PAIR — pairing and ordering templates (dominance on SSA).
 
 import (
+	"sort"
 	"fmt"
 	"go/token"
 	"go/types"
@@ -1162,6 +1163,10 @@ func rulePAIR4(w *World) []Ob {
 				}
 			}
 		}
+		if to, ok := rootOnlyDelegated(p, body, rootPrm); ok {
+			l.ok(fid, construct, p.Pos(body.Pos()), "the node is only handed on to "+to+", checked by this rule itself; nothing with an effect outside the process is reached except through it", false, "validate-first")
+			continue
+		}
 		if vcall == nil || vcall.Common().StaticCallee() == nil || nc.nilRetImp[vcall.Common().StaticCallee()] == nil {
 			what := "nothing"
 			if first != nil {
@@ -2081,4 +2086,105 @@ func valueFromOption(v ssa.Value, d int) bool {
 		return valueFromOption(x.X, d+1)
 	}
 	return false
+}
+
+
+// rootOnlyDelegated: the function does nothing with its node parameter but hand it — directly or from inside function
+// literals that capture it — to exported entry points of the library in a node position (each of which is checked by
+// PAIR-4 itself), it has no sink parameter of its own to write to, and nothing that changes the filesystem or starts a
+// process is reachable from it except through those entry points.
+func rootOnlyDelegated(p *Prog, body *ssa.Function, root ssa.Value) (string, bool) {
+	for _, prm := range body.Params {
+		if isSinkType(prm.Type()) {
+			return "", false
+		}
+	}
+	delegates := map[*ssa.Function]bool{}
+	var uses func(v ssa.Value, d int) bool
+	uses = func(v ssa.Value, d int) bool {
+		if v.Referrers() == nil || d > 6 {
+			return false
+		}
+		for _, r := range *v.Referrers() {
+			switch x := r.(type) {
+			case *ssa.DebugRef:
+			case *ssa.Call:
+				g := x.Common().StaticCallee()
+				if g == nil || g == body || g.Object() == nil || !g.Object().Exported() || p.PkgPath(g) != modulePath || g.Signature.Recv() != nil {
+					return false
+				}
+				found := false
+				for i, a := range x.Common().Args {
+					if a == v {
+						if i >= len(g.Params) || !isNodePtr(g.Params[i].Type()) {
+							return false
+						}
+						found = true
+					}
+				}
+				if !found {
+					return false
+				}
+				delegates[g] = true
+			case *ssa.MakeClosure:
+				fn := x.Fn.(*ssa.Function)
+				for i, b := range x.Bindings {
+					if b == v {
+						if i >= len(fn.FreeVars) || !uses(fn.FreeVars[i], d+1) {
+							return false
+						}
+					}
+				}
+			case *ssa.Store:
+				// the cell of a captured parameter: written once here, then only read or captured
+				al, isAl := x.Addr.(*ssa.Alloc)
+				if x.Val == v && isAl {
+					if !uses(al, d+1) {
+						return false
+					}
+				} else if x.Addr != v || d == 0 {
+					return false
+				} else {
+					// the initialising store seen from the cell: exactly one
+					n := 0
+					for _, r2 := range *v.Referrers() {
+						if _, isSt := r2.(*ssa.Store); isSt {
+							n++
+						}
+					}
+					if n != 1 {
+						return false
+					}
+				}
+			case *ssa.UnOp:
+				if x.Op != token.MUL || !uses(x, d+1) {
+					return false
+				}
+			default:
+				return false
+			}
+		}
+		return true
+	}
+	if !uses(root, 0) || len(delegates) == 0 {
+		return "", false
+	}
+	ds := directSites(p)
+	effectful := func(f *ssa.Function) bool {
+		for _, s := range ds[f] {
+			if s.eff == EffFSMutate || s.eff == EffExec || s.eff == EffProcess {
+				return true
+			}
+		}
+		return false
+	}
+	if findPath(p, body, effectful, func(_ *ssa.Function, e callEdge) bool { return delegates[e.to] }) != nil {
+		return "", false
+	}
+	var names []string
+	for g := range delegates {
+		names = append(names, relFunc(g))
+	}
+	sort.Strings(names)
+	return strings.Join(names, ", "), true
 }
